@@ -7,12 +7,14 @@
 package main
 
 import (
-	"encoding/hex"
+	"encoding/binary"
 	"encoding/json"
 	"errors"
 	"fmt"
 	"os"
+	"path/filepath"
 	"regexp"
+	"runtime/pprof"
 	"sort"
 	"strings"
 	"sync/atomic"
@@ -80,10 +82,9 @@ func (j job) input(i int) []byte {
 }
 
 func bombBytes(spec string) []byte {
-	var kind string
 	var k int
 	i := strings.LastIndex(spec, ":")
-	kind = spec[:i]
+	kind := spec[:i]
 	fmt.Sscan(spec[i+1:], &k)
 	var s string
 	switch kind {
@@ -130,19 +131,60 @@ type result struct {
 	Inputs     int64            `json:"inputs"`
 	NonTrivial int64            `json:"nontrivial"`
 	Evals      int64            `json:"evals"`
-	Subsumed   int64            `json:"subsumed"` // in-memory cells not run because their reader twin spins
+	Subsumed   int64            `json:"subsumed"` // in-memory evaluations not run because their reader twin spins
 	Remeasured int64            `json:"remeasured"`
 	Out        map[string]int64 `json:"out"`
 	Viol       []violRec        `json:"viol"`
 	Sample     string           `json:"sample,omitempty"`
 }
 
+// The journal is 16 bytes of a shared file mapping: the id of the job being served and the index of the
+// evaluation in flight. Plain stores; the page survives the death of the process.
+var journal []byte
+
+func openJournal() {
+	dir := os.Getenv("VERIF_SCRATCH")
+	if dir == "" {
+		dir = filepath.Join(os.TempDir(), "c04-journal")
+	}
+	os.MkdirAll(dir, 0o755)
+	f, err := os.CreateTemp(dir, "journal-*")
+	if err != nil {
+		return
+	}
+	f.Truncate(16)
+	m, err := syscall.Mmap(int(f.Fd()), 0, 16, syscall.PROT_READ|syscall.PROT_WRITE, syscall.MAP_SHARED)
+	if err != nil {
+		return
+	}
+	journal = m
+	fmt.Fprintf(os.Stderr, "C04-JOURNAL %s\n", f.Name())
+}
+
+var journalRe = regexp.MustCompile(`C04-JOURNAL (\S+)`)
+
+// readJournal returns the evaluation index a dead worker was at, if its journal belongs to job id.
+func readJournal(stderr string, id uint64) (int, bool) {
+	m := journalRe.FindStringSubmatch(stderr)
+	if m == nil {
+		return 0, false
+	}
+	b, err := os.ReadFile(m[1])
+	os.Remove(m[1])
+	if err != nil || len(b) < 16 || binary.LittleEndian.Uint64(b) != id {
+		return 0, false
+	}
+	idx := binary.LittleEndian.Uint64(b[8:])
+	if idx == ^uint64(0) {
+		return 0, false
+	}
+	return int(idx), true
+}
+
 var (
-	seq       atomic.Uint64
-	busy      atomic.Bool
-	curDomain string
-	curCell   int
-	curInput  []byte
+	seq      atomic.Uint64
+	busy     atomic.Bool
+	curInput []byte
 )
 
 func cpuNow() time.Duration {
@@ -154,8 +196,8 @@ func cpuNow() time.Duration {
 func cpuBudget(n int) time.Duration { return 3*time.Second + time.Duration(n)*10*time.Microsecond }
 
 // cpuWatchdog convicts an evaluation that has consumed more CPU time than the budget without returning
-// (CPU time of this process, so machine load cannot trip it). It names the cell on stderr and exits; the
-// coordinator reads the verdict from the failure record.
+// (CPU time of this process, so machine load cannot trip it). It names the loop on stderr and exits; the
+// coordinator finds the evaluation in the journal.
 func cpuWatchdog() {
 	var last uint64
 	var stuck time.Duration
@@ -170,20 +212,10 @@ func cpuWatchdog() {
 		}
 		last, lastCPU = s, c
 		if stuck > cpuBudget(len(curInput)) {
-			in := "(long)"
-			if len(curInput) <= 200 {
-				in = hex.EncodeToString(curInput)
-			}
-			fmt.Fprintf(os.Stderr, "\nC04-CPU-BUDGET domain=%s cell=%d input=%s cpu=%.1fs\n", curDomain, curCell, in, stuck.Seconds())
+			fmt.Fprintf(os.Stderr, "\nC04-CPU-BUDGET cpu=%.1fs loop=%s\n", stuck.Seconds(), hangSite())
 			os.Exit(7)
 		}
 	}
-}
-
-func guarded(domain string, cell int, input []byte, f func()) {
-	curDomain, curCell, curInput = domain, cell, input
-	seq.Add(1)
-	f()
 }
 
 func quoted(b []byte) string {
@@ -193,12 +225,13 @@ func quoted(b []byte) string {
 	return fmt.Sprintf("%q", b)
 }
 
-var digitsRe = regexp.MustCompile(`[0-9]+`)
+var digitsRe = regexp.MustCompile(`-?[0-9]+`)
 
 // msgClass reduces a panic message to its kind: numbers and type names vary with the input, the kind does not.
 func msgClass(msg string) string {
 	msg = strings.TrimPrefix(msg, "runtime error: ")
-	for _, cut := range []string{"unhashable type", "interface conversion", "reflect.Set", "reflect: call of", "reflect:"} {
+	msg = strings.TrimPrefix(msg, "runtime: ")
+	for _, cut := range []string{"out of range", "unhashable type", "interface conversion", "reflect.Set", "reflect: call of", "reflect:"} {
 		if i := strings.Index(msg, cut); i >= 0 {
 			msg = msg[:i+len(cut)]
 		}
@@ -208,6 +241,10 @@ func msgClass(msg string) string {
 		msg = msg[:60]
 	}
 	return strings.ReplaceAll(strings.TrimSpace(msg), " ", "_")
+}
+
+func overAlloc(alloc uint64, n int) string {
+	return fmt.Sprintf("allocated %d bytes decoding %d bytes (bound 1 MiB + 256 x length = %d)", alloc, n, allocBound(n))
 }
 
 func runJob(j job) result {
@@ -241,75 +278,92 @@ func runJob(j job) result {
 		}
 		res.Viol = append(res.Viol, v)
 	}
-	inputs := inputsOf(j)
+	mark := func(idx int, input []byte) {
+		if journal != nil {
+			binary.LittleEndian.PutUint64(journal[8:], uint64(idx))
+		}
+		curInput = input
+		seq.Add(1)
+	}
+	if journal != nil {
+		binary.LittleEndian.PutUint64(journal[8:], ^uint64(0))
+		binary.LittleEndian.PutUint64(journal, j.ID)
+	}
 	busy.Store(true)
 	defer busy.Store(false)
-	for ii, input := range inputs {
-		if j.Cell >= 0 {
-			// single cell, exact allocation accounting
-			var o outcome
-			var alloc uint64
-			guarded(j.Domain, j.Cell, input, func() { o, alloc = runCellMeasured(j.Domain, j.Cell, input) })
-			res.Evals++
-			if (o.Kind == "ok" || o.Kind == "error") && alloc > allocBound(len(input)) {
-				o = outcome{Kind: "over-allocation", Msg: fmt.Sprintf("allocated %d bytes decoding %d bytes (bound %d)", alloc, len(input), allocBound(len(input)))}
-			}
-			res.Out[o.Kind]++
-			if o.Kind != "ok" && o.Kind != "error" {
-				record(j.Cell, o, input)
-			}
-			continue
+	n := nCells(j.Domain)
+	from, to := j.bounds()
+	mid := (from/n + (to-1)/n) / 2
+	for ii := from / n; ii*n < to; ii++ {
+		input := j.input(ii)
+		c0, c1 := 0, n
+		if ii*n < from {
+			c0 = from - ii*n
 		}
-		res.Inputs++
-		if len(input) >= 2 {
-			res.NonTrivial++
+		if (ii+1)*n > to {
+			c1 = to - ii*n
+		}
+		if c0 == 0 && !j.NoCount {
+			res.Inputs++
+			if len(input) >= 2 {
+				res.NonTrivial++
+			}
 		}
 		hist := map[string]int{}
-		n := nCells(j.Domain)
 		ran := make([]bool, n)
-		before := allocApprox()
-		spun := [2]bool{}
-		for cell := 0; cell < n; cell++ {
-			if j.Domain == "io" {
-				v := cell % len(ioVariants)
-				if v == 0 {
-					spun = [2]bool{}
-				}
-				if v >= 2 && spun[v%2] {
-					res.Subsumed++ // the reader twin of this (destination, mode) spins: see the assumptions
-					continue
-				}
+		var before uint64
+		if !j.Exact {
+			before = allocApprox()
+		}
+		spun := false
+		for cell := c0; cell < c1; cell++ {
+			st := stageOf(j.Domain, cell)
+			if st == 0 || cell == c0 {
+				spun = false // a range that resumes inside a group resumes after an evaluation that did not spin
 			}
+			if st > 0 && spun {
+				res.Subsumed++ // the reader twin of this (destination, mode) spins: see the assumptions
+				continue
+			}
+			mark(ii*n+cell, input)
 			var o outcome
-			guarded(j.Domain, cell, input, func() { o = runCell(j.Domain, cell, input) })
+			if j.Exact {
+				var alloc uint64
+				o, alloc = runCellMeasured(j.Domain, cell, input)
+				if (o.Kind == "ok" || o.Kind == "error") && alloc > allocBound(len(input)) {
+					o = outcome{Kind: "over-allocation", Msg: overAlloc(alloc, len(input)), Site: allocSite(j.Domain, cell, input)}
+				}
+			} else {
+				o = runCell(j.Domain, cell, input)
+			}
 			res.Evals++
 			ran[cell] = o.Kind == "ok" || o.Kind == "error"
 			res.Out[o.Kind]++
 			hist[o.Kind]++
-			if o.Kind == "spin" {
-				spun[cell%len(ioVariants)%2] = true
-			}
-			if o.Kind != "ok" && o.Kind != "error" {
+			spun = o.Kind == "spin"
+			if !ran[cell] {
 				record(cell, o, input)
 			}
 		}
-		if delta := allocApprox() - before; delta > allocBound(len(input))/2 {
-			// the batch allocated enough that one evaluation might be over the bound: measure each exactly
-			for cell := 0; cell < n; cell++ {
-				if !ran[cell] {
-					continue
-				}
-				res.Remeasured++
-				var o outcome
-				var alloc uint64
-				guarded(j.Domain, cell, input, func() { o, alloc = runCellMeasured(j.Domain, cell, input) })
-				if (o.Kind == "ok" || o.Kind == "error") && alloc > allocBound(len(input)) {
-					record(cell, outcome{Kind: "over-allocation", Msg: fmt.Sprintf("allocated %d bytes decoding %d bytes (bound %d)", alloc, len(input), allocBound(len(input)))}, input)
-					res.Out["over-allocation"]++
+		if !j.Exact {
+			if delta := allocApprox() - before; delta > allocBound(len(input))/2 {
+				// the batch allocated enough that one evaluation might be over the bound: measure each exactly
+				for cell := c0; cell < c1; cell++ {
+					if !ran[cell] {
+						continue
+					}
+					res.Remeasured++
+					mark(ii*n+cell, input)
+					o, alloc := runCellMeasured(j.Domain, cell, input)
+					if (o.Kind == "ok" || o.Kind == "error") && alloc > allocBound(len(input)) {
+						record(cell, outcome{Kind: "over-allocation", Msg: overAlloc(alloc, len(input)), Site: allocSite(j.Domain, cell, input)}, input)
+						res.Out["over-allocation"]++
+						res.Out[o.Kind]--
+					}
 				}
 			}
 		}
-		if ii == len(inputs)/2 {
+		if ii == mid {
 			var ks []string
 			for k, c := range hist {
 				ks = append(ks, fmt.Sprintf("%s x%d", k, c))
@@ -318,16 +372,19 @@ func runJob(j job) result {
 			res.Sample = fmt.Sprintf("%s %s -> %s", j.Domain, quoted(input), strings.Join(ks, ", "))
 		}
 	}
+	if journal != nil {
+		binary.LittleEndian.PutUint64(journal[8:], ^uint64(0))
+	}
 	return res
 }
 
 // ---- the enumerated spaces ----
 
 type spaces struct {
-	jobs      []job // round 1: bulk jobs and the first stage of the huge-count cells
+	jobs      []job // bulk jobs and the first stage of the huge-count evaluations
 	corpusN   int
 	info      map[string]interface{}
-	risky     int64 // distinct huge-count / bomb inputs (they only ever run as single-cell jobs)
+	risky     int64 // distinct huge-count / bomb inputs (they only ever run as single-evaluation jobs)
 	riskyNT   int64
 	explicitN map[string]int
 }
@@ -339,7 +396,7 @@ func chunk(domain string, in [][]byte, size int) []job {
 		if j > len(in) {
 			j = len(in)
 		}
-		out = append(out, job{Domain: domain, Inputs: in[i:j], Cell: -1})
+		out = append(out, job{Domain: domain, Inputs: in[i:j]})
 	}
 	return out
 }
@@ -352,7 +409,7 @@ func sigmaJobs(domain, prefix string, maxLen, size int) []job {
 		if hi > n {
 			hi = n
 		}
-		out = append(out, job{Domain: domain, Prefix: prefix, Lo: lo, Hi: hi, Cell: -1})
+		out = append(out, job{Domain: domain, Prefix: prefix, Lo: lo, Hi: hi})
 	}
 	return out
 }
@@ -425,6 +482,11 @@ func coveredBySigma(b []byte, prefixes []string, maxLen int) bool {
 	return false
 }
 
+type riskyIn struct {
+	b    []byte
+	meta string
+}
+
 func build(thorough bool) spaces {
 	sp := spaces{info: map[string]interface{}{}, explicitN: map[string]int{}}
 	maxLen, ins := 3, corpus.SigmaIns
@@ -433,23 +495,27 @@ func build(thorough bool) spaces {
 	}
 	cs := corpus.Build(gen.NewAlphabet(), 40, 1)
 	sp.corpusN = len(cs)
-	numSub := corpus.FirstPer(cs, corpus.TagSet)
+	// thorough: all edits on the whole corpus, huge counts on one stream per sequence of count-owning tags;
+	// quick: truncations and deletions on the whole corpus, substitutions and insertions on one stream per set
+	// of count-owning tags, huge counts on every second of those
+	editSub, hugeSub := map[string]bool{}, map[string]bool{}
 	if thorough {
-		numSub = corpus.FirstPer(cs, corpus.TagSeq)
+		for _, s := range corpus.FirstPer(cs, corpus.TagSeq) {
+			hugeSub[string(s.Bytes)] = true
+		}
+	} else {
+		for i, s := range corpus.FirstPer(cs, corpus.TagSet) {
+			editSub[string(s.Bytes)] = true
+			if i%2 == 0 {
+				hugeSub[string(s.Bytes)] = true
+			}
+		}
 	}
-	inSub := map[string]bool{}
-	for _, s := range numSub {
-		inSub[string(s.Bytes)] = true
-	}
-	type riskyIn struct {
-		b    []byte
-		meta string
-	}
-	explicit := func(domain string, valid [][]byte, sub func([]byte) bool, prefixes []string) ([][]byte, []riskyIn) {
+	explicit := func(domain string, valid [][]byte, edits, huge func([]byte) bool, prefixes []string) ([][]byte, []riskyIn) {
 		seen := map[string]bool{}
 		var out [][]byte
 		var risky []riskyIn
-		var nMut, nNum, nHugeSkipped int
+		var nMut, nNum, nEdit, nHuge int
 		add := func(b []byte) bool {
 			if seen[string(b)] || coveredBySigma(b, prefixes, maxLen) {
 				return false
@@ -460,18 +526,24 @@ func build(thorough bool) spaces {
 		}
 		for _, s := range valid {
 			add(s)
-			for _, m := range corpus.Mutations(s, ins) {
+			var muts [][]byte
+			if edits(s) {
+				nEdit++
+				muts = corpus.Mutations(s, ins)
+			} else {
+				muts = corpus.TruncDel(s)
+			}
+			for _, m := range muts {
 				if add(m) {
 					nMut++
 				}
 			}
+			if huge(s) {
+				nHuge++
+			}
 			for _, m := range corpus.NumMutations(s) {
 				if corpus.Huge(m.Value) {
-					if !sub(s) {
-						nHugeSkipped++
-						continue
-					}
-					if !seen[string(m.Bytes)] {
+					if huge(s) && !seen[string(m.Bytes)] {
 						seen[string(m.Bytes)] = true
 						risky = append(risky, riskyIn{m.Bytes, fmt.Sprintf("count-of=%c value=%s", m.Tag, m.Value)})
 					}
@@ -483,6 +555,8 @@ func build(thorough bool) spaces {
 			}
 		}
 		sp.info[domain+"_valid_streams"] = len(valid)
+		sp.info[domain+"_streams_with_substitutions_and_insertions"] = nEdit
+		sp.info[domain+"_streams_with_huge_counts"] = nHuge
 		sp.info[domain+"_single_edit_mutants"] = nMut
 		sp.info[domain+"_numeric_mutants_small"] = nNum
 		sp.info[domain+"_numeric_mutants_huge"] = len(risky)
@@ -495,8 +569,12 @@ func build(thorough bool) spaces {
 			sp.riskyNT++
 		}
 		for _, c := range cells {
-			sp.jobs = append(sp.jobs, job{Domain: domain, Inputs: [][]byte{r.b}, Cell: c, Meta: r.meta})
+			sp.jobs = append(sp.jobs, job{Domain: domain, Inputs: [][]byte{r.b}, From: c, To: c + 1, Exact: true, NoCount: true, Meta: r.meta})
 		}
+	}
+	allOf := func([]byte) bool { return true }
+	in := func(m map[string]bool) func([]byte) bool {
+		return func(b []byte) bool { return m[string(b)] }
 	}
 
 	// io domain
@@ -504,19 +582,22 @@ func build(thorough bool) spaces {
 	for _, s := range cs {
 		valid = append(valid, s.Bytes)
 	}
-	ioIn, ioRisky := explicit("io", valid, func(b []byte) bool { return inSub[string(b)] }, []string{""})
-	sp.jobs = append(sp.jobs, sigmaJobs("io", "", maxLen, 400)...)
-	sp.jobs = append(sp.jobs, chunk("io", ioIn, 300)...)
-	var readerCells []int // stage one of a huge-count input: the reader variants; the coder variants follow per cell
+	edits := in(editSub)
+	if thorough {
+		edits = allOf
+	}
+	ioIn, ioRisky := explicit("io", valid, edits, in(hugeSub), []string{""})
+	sp.jobs = append(sp.jobs, sigmaJobs("io", "", maxLen, 200)...)
+	sp.jobs = append(sp.jobs, chunk("io", ioIn, 100)...)
+	var readerCells []int // stage one of a huge-count input: the reader variants; the coder variants follow
 	for d := range dests {
-		readerCells = append(readerCells, d*len(ioVariants)+0, d*len(ioVariants)+1)
+		readerCells = append(readerCells, d*len(ioVariants)+0, d*len(ioVariants)+3)
 	}
 	for _, r := range ioRisky {
 		addRisky("io", r, readerCells)
 	}
-	sp.info["io_numeric_huge_subcorpus_streams"] = len(numSub)
 
-	// rpc domains: huge-count mutants of every third valid message in the quick tier, of all in thorough
+	// rpc domains: huge counts on every third valid message in the quick tier, on all of them in thorough
 	nth := func(all [][]byte) func([]byte) bool {
 		keep := map[string]bool{}
 		for i, b := range all {
@@ -534,52 +615,43 @@ func build(thorough bool) spaces {
 		return out
 	}
 	reqs := validRequests()
-	svcIn, svcRisky := explicit("svc", reqs, nth(reqs), svcPrefixes)
+	svcIn, svcRisky := explicit("svc", reqs, allOf, nth(reqs), svcPrefixes)
 	for _, p := range svcPrefixes {
 		sp.jobs = append(sp.jobs, sigmaJobs("svc", p, maxLen, 4000)...)
 	}
-	sp.jobs = append(sp.jobs, chunk("svc", svcIn, 2000)...)
+	sp.jobs = append(sp.jobs, chunk("svc", svcIn, 1000)...)
 	for _, r := range svcRisky {
 		addRisky("svc", r, all(len(services)))
 	}
 	resps := validResponses()
-	cliIn, cliRisky := explicit("cli", resps, nth(resps), cliPrefixes)
+	cliIn, cliRisky := explicit("cli", resps, allOf, nth(resps), cliPrefixes)
 	for _, p := range cliPrefixes {
 		sp.jobs = append(sp.jobs, sigmaJobs("cli", p, maxLen, 4000)...)
 	}
-	sp.jobs = append(sp.jobs, chunk("cli", cliIn, 2000)...)
+	sp.jobs = append(sp.jobs, chunk("cli", cliIn, 1000)...)
 	for _, r := range cliRisky {
 		addRisky("cli", r, all(len(cliReturn)))
 	}
 
-	// nesting bombs: one worker per cell
+	// nesting bombs: one job per evaluation
 	depths := []int{10, 100, 1000, 10000, 100000}
 	nb := 0
+	bomb := func(domain, kind string, k int) {
+		nb++
+		sp.risky++
+		sp.riskyNT++
+		for c := 0; c < nCells(domain); c++ {
+			sp.jobs = append(sp.jobs, job{Domain: domain, Bomb: fmt.Sprintf("%s:%d", kind, k), From: c, To: c + 1, Exact: true, NoCount: true})
+		}
+	}
 	for _, k := range depths {
 		for _, kind := range []string{"list-open", "list-closed", "map-open", "map-closed"} {
-			nb++
-			sp.risky++
-			sp.riskyNT++
-			for c := 0; c < nCells("io"); c++ {
-				sp.jobs = append(sp.jobs, job{Domain: "io", Bomb: fmt.Sprintf("%s:%d", kind, k), Cell: c})
-			}
+			bomb("io", kind, k)
 		}
-		for _, kind := range []string{"svc-list-open", "svc-list-closed"} {
-			nb++
-			sp.risky++
-			sp.riskyNT++
-			for c := 0; c < nCells("svc"); c++ {
-				sp.jobs = append(sp.jobs, job{Domain: "svc", Bomb: fmt.Sprintf("%s:%d", kind, k), Cell: c})
-			}
-		}
-		for _, kind := range []string{"cli-list-open", "cli-list-closed"} {
-			nb++
-			sp.risky++
-			sp.riskyNT++
-			for c := 0; c < nCells("cli"); c++ {
-				sp.jobs = append(sp.jobs, job{Domain: "cli", Bomb: fmt.Sprintf("%s:%d", kind, k), Cell: c})
-			}
-		}
+		bomb("svc", "svc-list-open", k)
+		bomb("svc", "svc-list-closed", k)
+		bomb("cli", "cli-list-open", k)
+		bomb("cli", "cli-list-closed", k)
 	}
 	sp.info["sigma_symbols"] = len(corpus.Sigma)
 	sp.info["sigma_max_length"] = maxLen
@@ -603,15 +675,15 @@ type agg struct {
 	count   int64
 	cells   map[string]bool
 	domains map[string]bool
+	kinds   map[string]bool
 	rep     violRec
 }
 
 func better(a, b violRec) bool { // a is a better representative than b
-	la, lb := len(a.Input), len(b.Input)
 	if a.Bomb != "" || b.Bomb != "" {
 		return a.Bomb != "" && (b.Bomb == "" || len(a.Bomb) < len(b.Bomb) || len(a.Bomb) == len(b.Bomb) && a.Bomb < b.Bomb)
 	}
-	if la != lb {
+	if la, lb := len(a.Input), len(b.Input); la != lb {
 		return la < lb
 	}
 	if c := strings.Compare(string(a.Input), string(b.Input)); c != 0 {
@@ -623,29 +695,24 @@ func better(a, b violRec) bool { // a is a better representative than b
 	return a.Cell < b.Cell
 }
 
-func metaCount(meta string) string {
-	if i := strings.Index(meta, "count-of="); i >= 0 {
-		return "|" + meta[i:i+len("count-of=")+1]
-	}
-	return ""
-}
-
 func signature(v violRec) string {
 	switch v.Kind {
 	case "panic":
 		return fmt.Sprintf("C04|panic|at=%s|%s", v.Site, msgClass(v.Msg))
-	case "spin":
+	case "spin", "cpu-budget", "hang-watchdog":
+		// one oracle per entry point (post-EOF read count for reader-fed decodes, CPU budget in memory), one defect
 		return "C04|unbounded-loop|at=" + v.Site
-	case "out-of-memory":
-		return "C04|out-of-memory|at=" + v.Site
-	case "over-allocation":
-		return "C04|over-allocation|" + v.Domain + ":" + shortCell(v)
-	case "stack-overflow", "cpu-budget", "hang-watchdog":
-		what := shortCell(v) + metaCount(v.Meta)
+	case "out-of-memory", "over-allocation":
+		// the allocation the address space could not satisfy and the one that was measured are the same defect
+		return "C04|wire-sized-allocation|at=" + v.Site
+	case "out-of-bounds-write":
+		return "C04|out-of-bounds-write|" + v.Site
+	case "stack-overflow":
+		what := shortCell(v)
 		if v.Bomb != "" {
 			what += "|bomb=" + v.Bomb[:strings.LastIndex(v.Bomb, ":")]
 		}
-		return fmt.Sprintf("C04|%s|%s:%s", v.Kind, v.Domain, what)
+		return fmt.Sprintf("C04|stack-overflow|%s:%s", v.Domain, what)
 	}
 	return fmt.Sprintf("C04|%s|at=%s|%s", v.Kind, v.Site, msgClass(v.Msg))
 }
@@ -660,10 +727,14 @@ func shortCell(v violRec) string {
 	return strings.TrimPrefix(v.Name, "client returning ")
 }
 
-// classify turns the death of a single-cell job into a violation record.
-func classify(j job, f *shard.Failure) violRec {
-	in := inputsOf(j)[0]
-	v := violRec{Domain: j.Domain, Cell: j.Cell, Name: cellName(j.Domain, j.Cell), Input: in, Quoted: quoted(in), Meta: j.Meta, Bomb: j.Bomb, Count: 1}
+var loopRe = regexp.MustCompile(`loop=(\S+)`)
+
+// classify turns the death of a worker during evaluation idx of job j into a violation record.
+func classify(j job, idx int, f *shard.Failure) violRec {
+	n := nCells(j.Domain)
+	in := j.input(idx / n)
+	cell := idx % n
+	v := violRec{Domain: j.Domain, Cell: cell, Name: cellName(j.Domain, cell), Input: in, Quoted: quoted(in), Meta: j.Meta, Bomb: j.Bomb, Count: 1}
 	if j.Bomb != "" {
 		v.Input = nil
 	}
@@ -681,9 +752,12 @@ func classify(j job, f *shard.Failure) violRec {
 	}
 	switch {
 	case strings.Contains(se, "C04-CPU-BUDGET"):
-		v.Kind, v.Msg = "cpu-budget", "the evaluation did not return within its CPU budget: "+firstLine("C04-CPU-BUDGET")
+		v.Kind, v.Msg, v.Site = "cpu-budget", "the evaluation did not return within its CPU budget ("+firstLine("C04-CPU-BUDGET")+")", "?"
+		if m := loopRe.FindStringSubmatch(se); m != nil {
+			v.Site = m[1]
+		}
 	case f.Kind == "timeout":
-		v.Kind, v.Msg = "hang-watchdog", f.Exit
+		v.Kind, v.Msg, v.Site = "hang-watchdog", f.Exit, "?"
 	case strings.Contains(se, "out of memory") || strings.Contains(se, "cannot allocate memory"):
 		v.Kind, v.Msg, v.Site = "out-of-memory", "the process died under ulimit -v 2 GiB: "+firstLine("runtime: out of memory")+firstLine("runtime: cannot allocate"), iocase.PanicSite(se)
 	case strings.Contains(se, "stack overflow") || strings.Contains(se, "stack exceeds"):
@@ -696,9 +770,28 @@ func classify(j job, f *shard.Failure) violRec {
 		if msg == "" {
 			msg = firstLine("SIG")
 		}
-		v.Kind, v.Msg, v.Site = "process-death", f.Exit+": "+msg, iocase.PanicSite(se)
+		v.Kind, v.Msg, v.Site = "process-death", msg+" ("+f.Exit+")", iocase.PanicSite(se)
 	}
 	return v
+}
+
+func runJobs(jobs []job, workers int, on func(j job, r *result, fail *shard.Failure)) {
+	list := make([]interface{}, len(jobs))
+	for i := range jobs {
+		list[i] = jobs[i]
+	}
+	shard.Run(list, shard.Options{Workers: workers, JobTimeout: 120 * time.Second, MemLimitKB: memLimitKB}, func(i int, raw json.RawMessage, fail *shard.Failure) {
+		if fail != nil {
+			on(jobs[i], nil, fail)
+			return
+		}
+		var r result
+		if err := json.Unmarshal(raw, &r); err != nil || r.Out == nil {
+			on(jobs[i], nil, &shard.Failure{Kind: "protocol", Exit: "bad worker result: " + string(raw)})
+			return
+		}
+		on(jobs[i], &r, nil)
+	})
 }
 
 func main() {
@@ -706,7 +799,14 @@ func main() {
 	iocase.Init()
 	setupRPC()
 	if shard.IsWorker() {
+		openJournal()
 		go cpuWatchdog()
+		if f := os.Getenv("C04_CPUPROFILE"); f != "" {
+			w, _ := os.Create(f)
+			pprof.StartCPUProfile(w)
+			defer pprof.StopCPUProfile()
+			go func() { time.Sleep(8 * time.Second); pprof.StopCPUProfile(); os.Exit(0) }()
+		}
 		shard.Serve(func(raw json.RawMessage) interface{} {
 			var j job
 			if err := json.Unmarshal(raw, &j); err != nil {
@@ -720,73 +820,104 @@ func main() {
 		return
 	}
 	run := report.New(ID, "exploration")
+	tStart := time.Now()
 	sp := build(thorough)
+	if os.Getenv("C04_DEBUG") != "" {
+		fmt.Fprintf(os.Stderr, "build %.1fs, %d jobs\n", time.Since(tStart).Seconds(), len(sp.jobs))
+	}
 
 	aggs := map[string]*agg{}
 	addViol := func(v violRec) {
 		sig := signature(v)
 		a := aggs[sig]
 		if a == nil {
-			a = &agg{sig: sig, cells: map[string]bool{}, domains: map[string]bool{}, rep: v}
+			a = &agg{sig: sig, cells: map[string]bool{}, domains: map[string]bool{}, kinds: map[string]bool{}, rep: v}
 			aggs[sig] = a
 		} else if better(v, a.rep) {
 			a.rep = v
 		}
 		a.count += v.Count
 		a.domains[v.Domain] = true
+		a.kinds[v.Kind] = true
 		for _, c := range v.Cells {
 			if len(a.cells) < 400 {
 				a.cells[c] = true
 			}
 		}
 	}
-	var inputs, nontrivial, evals, subsumed, remeasured, deaths, splits int64
+	var inputs, nontrivial, evals, subsumed, remeasured, deaths, bisections int64
 	inputs, nontrivial = sp.risky, sp.riskyNT
 	out := map[string]int64{}
 	samples := report.NewSamples(16)
+	var nextID uint64
 	pending := sp.jobs
 	rounds := 0
 	for len(pending) > 0 {
 		rounds++
 		cur := pending
 		pending = nil
-		jobs := make([]interface{}, len(cur))
 		for i := range cur {
-			jobs[i] = cur[i]
+			nextID++
+			cur[i].ID = nextID
 		}
-		shard.Run(jobs, shard.Options{JobTimeout: 120 * time.Second, MemLimitKB: memLimitKB}, func(i int, raw json.RawMessage, fail *shard.Failure) {
-			j := cur[i]
-			stageOne := j.Domain == "io" && j.Cell >= 0 && j.Bomb == "" && j.Cell%len(ioVariants) < 2
+		nth := 0
+		t0, d0 := time.Now(), deaths
+		runJobs(cur, 0, func(j job, r *result, fail *shard.Failure) {
+			from, to := j.bounds()
+			n := nCells(j.Domain)
+			single := to-from == 1
+			stageOne := single && j.Domain == "io" && j.Bomb == "" && j.NoCount && stageOf("io", from%n) == 0
 			spun := false
 			if fail != nil {
-				switch {
-				case j.Cell >= 0:
-					deaths++
-					evals++
-					v := classify(j, fail)
-					out[v.Kind]++
-					addViol(v)
-				case len(inputsOf(j)) > 1:
-					splits++
-					for _, in := range inputsOf(j) {
-						pending = append(pending, job{Domain: j.Domain, Inputs: [][]byte{in}, Cell: -1})
-					}
-				default:
-					splits++
-					inputs++ // this input is now counted here: its all-cells job never reported
-					if len(inputsOf(j)[0]) >= 2 {
+				if fail.Kind == "protocol" {
+					run.Infra(fail.Exit)
+					return
+				}
+				idx, ok := from, single
+				if !ok {
+					idx, ok = readJournal(fail.Stderr, j.ID)
+					ok = ok && idx >= from && idx < to
+				}
+				if !ok {
+					// no journal entry (the worker died outside an evaluation): bisect the range
+					bisections++
+					mid := (from + to) / 2
+					a, b := j, j
+					a.To, b.From, b.To = mid, mid, to
+					pending = append(pending, a, b)
+					return
+				}
+				deaths++
+				evals++
+				v := classify(j, idx, fail)
+				out[v.Kind]++
+				addViol(v)
+				if idx%n == 0 && !j.NoCount {
+					inputs++ // nobody else reports the input whose first evaluation died
+					if len(j.input(idx/n)) >= 2 {
 						nontrivial++
 					}
-					for c := 0; c < nCells(j.Domain); c++ {
-						pending = append(pending, job{Domain: j.Domain, Inputs: j.Inputs, Cell: c, Meta: "split"})
+				}
+				if idx > from {
+					a := j // the evaluations before idx are run again: their results died with the worker
+					a.To = idx
+					pending = append(pending, a)
+				}
+				// the rest: what is left of this input, and the inputs after it in two halves (deaths cluster, and a
+				// chain of them would otherwise be walked one round at a time)
+				cuts := []int{idx + 1, (idx/n + 1) * n, ((idx/n+1)*n + to + n) / 2 / n * n, to}
+				for k := 0; k+1 < len(cuts); k++ {
+					lo, hi := cuts[k], cuts[k+1]
+					if hi > to {
+						hi = to
+					}
+					if lo < hi {
+						b := j
+						b.From, b.To = lo, hi
+						pending = append(pending, b)
 					}
 				}
 			} else {
-				var r result
-				if err := json.Unmarshal(raw, &r); err != nil || r.Out == nil {
-					run.Infra("bad worker result: " + string(raw))
-					return
-				}
 				inputs += r.Inputs
 				nontrivial += r.NonTrivial
 				evals += r.Evals
@@ -799,23 +930,33 @@ func main() {
 					addViol(v)
 					spun = spun || v.Kind == "spin"
 				}
-				if r.Sample != "" && i%(len(cur)/16+1) == 0 {
+				nth++
+				if r.Sample != "" && nth%(len(cur)/16+1) == 0 {
 					samples.Add(r.Sample)
 				}
 			}
-			if stageOne && j.Meta != "split" {
-				// second stage of a huge-count cell: the in-memory twin, unless the reader twin spins
+			if stageOne {
+				// second stage of a huge-count evaluation: the in-memory twin, unless the reader twin spins
 				if spun {
 					subsumed++
 				} else {
-					pending = append(pending, job{Domain: "io", Inputs: j.Inputs, Cell: j.Cell + 2, Meta: j.Meta})
+					b := j
+					b.From, b.To = from+1, from+2
+					pending = append(pending, b)
 				}
 			}
 		})
+		if os.Getenv("C04_DEBUG") != "" {
+			fmt.Fprintf(os.Stderr, "round %d: %d jobs, %d deaths, %.2fs\n", rounds, len(cur), deaths-d0, time.Since(t0).Seconds())
+		}
 	}
 
-	// every signature's representative once more in a fresh worker; for a spinning reader twin also the
-	// in-memory twin that was not run, under the CPU budget
+	if os.Getenv("C04_DEBUG") != "" {
+		fmt.Fprintf(os.Stderr, "rounds done at %.1fs\n", time.Since(tStart).Seconds())
+	}
+
+	// every signature's representative once more alone in a fresh worker; for a spinning reader-fed decode also
+	// the in-memory twin that was not run, under the CPU budget
 	var sigs []string
 	for s := range aggs {
 		sigs = append(sigs, s)
@@ -829,59 +970,61 @@ func main() {
 		if a.rep.Bomb != "" {
 			in = nil
 		}
-		confirm = append(confirm, job{Domain: a.rep.Domain, Inputs: in, Bomb: a.rep.Bomb, Cell: a.rep.Cell, Meta: a.rep.Meta})
+		nextID++
+		confirm = append(confirm, job{ID: nextID, Domain: a.rep.Domain, Inputs: in, Bomb: a.rep.Bomb, From: a.rep.Cell, To: a.rep.Cell + 1, Exact: true, NoCount: true, Meta: a.rep.Meta})
 		confirmSig = append(confirmSig, s)
 		if a.rep.Kind == "spin" {
-			confirm = append(confirm, job{Domain: a.rep.Domain, Inputs: in, Cell: a.rep.Cell + 2, Meta: "in-memory-twin"})
+			nextID++
+			confirm = append(confirm, job{ID: nextID, Domain: a.rep.Domain, Inputs: in, From: a.rep.Cell + 1, To: a.rep.Cell + 2, Exact: true, NoCount: true, Meta: "in-memory-twin"})
 			confirmSig = append(confirmSig, s)
 		}
 	}
 	isolated := map[string]string{}
 	twin := map[string]string{}
+	sigOf := map[uint64]string{}
+	for i, j := range confirm {
+		sigOf[j.ID] = confirmSig[i]
+	}
 	if len(confirm) > 0 {
-		jobs := make([]interface{}, len(confirm))
-		for i := range confirm {
-			jobs[i] = confirm[i]
-		}
-		shard.Run(jobs, shard.Options{JobTimeout: 120 * time.Second, MemLimitKB: memLimitKB}, func(i int, raw json.RawMessage, fail *shard.Failure) {
+		runJobs(confirm, 0, func(j job, r *result, fail *shard.Failure) {
 			verdict := "no violation"
 			if fail != nil {
-				v := classify(confirm[i], fail)
+				v := classify(j, j.From, fail)
 				verdict = v.Kind + ": " + v.Msg
-			} else {
-				var r result
-				json.Unmarshal(raw, &r)
-				if len(r.Viol) > 0 {
-					verdict = r.Viol[0].Kind + ": " + r.Viol[0].Msg
-				}
+			} else if len(r.Viol) > 0 {
+				verdict = r.Viol[0].Kind + ": " + r.Viol[0].Msg
 			}
-			if confirm[i].Meta == "in-memory-twin" {
-				twin[confirmSig[i]] = verdict
+			s := sigOf[j.ID]
+			if j.Meta == "in-memory-twin" {
+				twin[s] = verdict
 				if verdict == "no violation" {
-					run.Infra("the in-memory twin of a spinning reader-fed decode returned normally; skipping in-memory cells is not justified for " + confirmSig[i])
+					run.Infra("the in-memory twin of a spinning reader-fed decode returned normally; skipping in-memory evaluations is not justified for " + s)
 				}
 			} else {
-				isolated[confirmSig[i]] = verdict
+				isolated[s] = verdict
 			}
 		})
 	}
 	for _, s := range sigs {
 		a := aggs[s]
 		cells := corpus.SortedKeys(a.cells)
-		if len(cells) > 40 {
-			cells = append(cells[:40], fmt.Sprintf("... (%d cells)", len(a.cells)))
+		if len(cells) > 30 {
+			cells = append(cells[:30], fmt.Sprintf("... (%d cells)", len(a.cells)))
 		}
-		what := fmt.Sprintf("%s [input %s%s; cell: %s; %d evaluations in %d cells of domains %v fail this way; cells: %s; alone in a fresh process: %s",
+		what := fmt.Sprintf("%s [input %s%s; cell: %s; %d evaluations in %d cells of domains %v fail this way (verdicts: %v); cells: %s; alone in a fresh process: %s",
 			a.rep.Msg, a.rep.Quoted, map[bool]string{true: " " + a.rep.Bomb, false: ""}[a.rep.Bomb != ""], a.rep.Name, a.count, len(a.cells),
-			corpus.SortedKeys(a.domains), strings.Join(cells, "; "), isolated[s])
+			corpus.SortedKeys(a.domains), corpus.SortedKeys(a.kinds), strings.Join(cells, "; "), isolated[s])
 		if t, ok := twin[s]; ok {
-			what += "; in-memory twin of the same cell: " + t
+			what += "; in-memory twin of the same evaluation: " + t
 		}
 		what += "]"
 		run.Violate(s, what, a.rep)
 		for k := int64(1); k < a.count && k < 1000000; k++ {
 			run.Violate(s, "", nil)
 		}
+	}
+	if os.Getenv("VERIF_SCRATCH") == "" {
+		os.RemoveAll(filepath.Join(os.TempDir(), "c04-journal"))
 	}
 	run.Set("evaluations", evals)
 	run.Set("distinct_nontrivial", nontrivial)
@@ -890,10 +1033,10 @@ func main() {
 	run.Set("samples", samples.List())
 	run.Set("exhaustive", true)
 	run.Set("outcomes", out)
-	run.Set("inmemory_cells_subsumed_by_spinning_reader_twin", subsumed)
-	run.Set("cells_remeasured_exactly_for_allocation", remeasured)
-	run.Set("worker_deaths_convicting_one_cell", deaths)
-	run.Set("jobs_split_after_worker_death", splits)
+	run.Set("inmemory_evaluations_subsumed_by_spinning_reader_twin", subsumed)
+	run.Set("evaluations_remeasured_exactly_for_allocation", remeasured)
+	run.Set("worker_deaths_convicting_one_evaluation", deaths)
+	run.Set("ranges_bisected_without_journal", bisections)
 	run.Set("rounds", rounds)
 	run.Set("signatures", len(sigs))
 	run.Set("in_memory_twin_confirmations", twin)
@@ -903,9 +1046,10 @@ func main() {
 	sp.info["corpus_streams"] = sp.corpusN
 	run.Set("space", sp.info)
 	run.Assumption("scope hypothesis: a decoder defect reachable from untrusted bytes shows on a string of at most the stated length over the tag alphabet, on a single-byte edit or a count/length/index replacement of a short valid stream, or on a nesting bomb")
-	run.Assumption("a reader-fed decode that asks for more data more than 100000 + 256 x len times after io.EOF is convicted as an unbounded loop; the in-memory variants of that (input, destination, mode) are then not run (they differ only in loadMore and would burn the CPU budget); one in-memory twin per signature is run under the CPU budget to confirm, and a twin that returns normally is an infrastructure error")
-	run.Assumption("workers run under ulimit -v 2 GiB: an allocation the address space cannot satisfy kills the worker and convicts the one cell it was running; smaller over-allocations are measured (TotalAlloc delta against 1 MiB + 256 x len)")
-	run.Assumption("time oracle: 3 s of process CPU time per evaluation (inputs are at most a few hundred bytes, bombs get 10 us per byte more) and a 120 s wall-clock watchdog per job; nothing below that is judged by the clock")
+	run.Assumption("a reader-fed decode that asks for more data more than 100000 + 256 x len times after io.EOF is convicted as an unbounded loop; the in-memory variants of that (input, destination, mode) are then not run (they differ only in loadMore and would each burn the CPU budget); one in-memory twin per signature is run under the CPU budget to confirm, and a twin that returns normally is an infrastructure error")
+	run.Assumption("workers run under ulimit -v 2 GiB: an allocation the address space cannot satisfy kills the worker and convicts the one evaluation named by its journal; smaller over-allocations are measured (TotalAlloc delta against 1 MiB + 256 x len)")
+	run.Assumption("time oracle: 3 s of process CPU time per evaluation (plus 10 us per input byte) and a 120 s wall-clock watchdog per job; nothing below that is judged by the clock")
+	run.Assumption("the at= label of a signature (panic site, allocation site, loop) is derived from stacks and the allocation profile; it names the verdict, it does not decide it")
 	run.Finish()
 }
 
@@ -916,21 +1060,17 @@ func replay(path string) {
 		fmt.Fprintln(os.Stderr, err)
 		os.Exit(2)
 	}
-	j := job{Domain: v.Domain, Cell: v.Cell, Bomb: v.Bomb, Meta: v.Meta}
+	j := job{ID: 1, Domain: v.Domain, From: v.Cell, To: v.Cell + 1, Exact: true, NoCount: true, Bomb: v.Bomb, Meta: v.Meta}
 	if v.Bomb == "" {
 		j.Inputs = [][]byte{v.Input}
 	}
 	fmt.Printf("domain %s cell %d (%s) input %s %s\n", v.Domain, v.Cell, cellName(v.Domain, v.Cell), v.Quoted, v.Bomb)
 	verdict := ""
-	shard.Run([]interface{}{j}, shard.Options{Workers: 1, JobTimeout: 120 * time.Second, MemLimitKB: memLimitKB}, func(i int, raw json.RawMessage, fail *shard.Failure) {
+	runJobs([]job{j}, 1, func(j job, r *result, fail *shard.Failure) {
 		if fail != nil {
-			c := classify(j, fail)
+			c := classify(j, j.From, fail)
 			verdict = c.Kind + ": " + c.Msg + " at " + c.Site
-			return
-		}
-		var r result
-		json.Unmarshal(raw, &r)
-		if len(r.Viol) > 0 {
+		} else if len(r.Viol) > 0 {
 			verdict = r.Viol[0].Kind + ": " + r.Viol[0].Msg + " at " + r.Viol[0].Site
 		}
 	})
